@@ -399,13 +399,22 @@ var allP2 = []string{"ns", "lp"}
 var sizeAwareP4 = []string{"sink", "valign", "packright", "ns"}
 var basicP5 = []string{"polyline", "straight", "ortho"}
 
+// grain of the generated sizes and spacings: multiples of 8 by default; a quarter of the cases use multiples of
+// 1/4, so that nearly-but-not-exactly equal coordinates occur (every value stays a dyadic rational far below
+// 2^53, so the halvings and sums in the code stay exact in binary floating point)
+var grain = 8.0
+
 func dyadic(r *Rng, max int) float64 {
-	// multiples of 8 so that halvings in the code stay exact in binary floating point
-	return float64(8 * r.Intn(max+1))
+	return grain * float64(r.Intn(max+1))
 }
 
 func genCase(r *Rng, o GenOpts) Case {
 	c := Case{}
+	grain = 8.0
+	if r.Bool(25) {
+		grain = 0.25
+	}
+	defer func() { grain = 8.0 }()
 	kind := o.Kinds[r.Intn(len(o.Kinds))]
 	n := 2 + r.Intn(o.MaxN-1)
 	es, n := genGraph(r, kind, n)
@@ -461,16 +470,21 @@ func genCase(r *Rng, o GenOpts) Case {
 	c.P2 = o.P2[r.Intn(len(o.P2))]
 	c.P4 = o.P4[r.Intn(len(o.P4))]
 	c.P5 = o.P5[r.Intn(len(o.P5))]
+	if c.P4 == "ns" && len(c.Edges) > 36 {
+		// the NetworkSimplex positioner is known to need tens of seconds from about 90 edges (known finding of
+		// C01, class ns-positioner-slow): keep it to moderate sizes here
+		c.P4 = "sink"
+	}
 	c.SizeMode = o.SizeModes[r.Intn(len(o.SizeModes))]
 	c.VirtualOut = o.VirtualOut[r.Intn(len(o.VirtualOut))]
 	if o.SpacingsPos {
-		c.NodeSpacing = 8 + dyadic(r, 8)
-		c.LayerSpacing = 16 + dyadic(r, 10)
+		c.NodeSpacing = grain + dyadic(r, 8)
+		c.LayerSpacing = 2*grain + dyadic(r, 10)
 	} else {
 		c.NodeSpacing = dyadic(r, 8)
 		c.LayerSpacing = dyadic(r, 10)
 		if o.LayerPos {
-			c.LayerSpacing += 8
+			c.LayerSpacing += grain
 		}
 	}
 	switch c.SizeMode {
